@@ -1296,6 +1296,15 @@ def oracle_c17(plan, tr):
         else:
             if st != 'ok' or val != exp[1]:
                 out.append({'property': 'C17', 'clause': 'C17.a-lookup', 'expr_class': expr_class(ex)})
+    # metadata-only decoding returns the same values for sections 0-3 as a full decode (of the undamaged
+    # message: the damage is confined to sections 4 and 5)
+    if secs and tr.get('fsections'):
+        a = [x for x in secs if x[0] <= 3]
+        b = [x for x in tr['fsections'] if x[0] <= 3]
+        if a != b:
+            names = [n for (i, pa), (_j, pb) in zip(a, b) for (n, v), (_n2, v2) in zip(pa, pb) if v != v2]
+            out.append({'property': 'C17', 'clause': 'C17.c-metadata-only-differs-from-full-decode',
+                        'name': names[0] if names else 'layout'})
     for ex, st, val in tr.get('fq', []):
         exp = md_expected(ex, tr['fsections'])
         if exp[0] == 'skip':
